@@ -14,6 +14,15 @@
   op:   R <ph-hex> <value>*           one request; the handler returns these values
   out:  <status> <body-hex> <next-ran 0|1> <panicked 0|1>
 
+  `NEW retseq <method>` sessions: one Flame, every op line is one request through ONE chain of
+  several handlers (a fresh route per line); the app scope persists from line to line.
+    op:   Q <g> <step> | <step> | …      (`g` leading steps are group handlers — harness only)
+    step ::= n                           a silent handler
+           | mr <code> <hex>             a handler doing c.Map(flamego.ReturnHandler(custom))
+           | ma <code> <hex>             a handler doing f.Map(flamego.ReturnHandler(custom))
+           | r <shape> <ph-hex> <value>* a handler of that func type returning these values
+    out:  <status> <body-hex> <handlers-started> <panicked 0|1>
+
   value ::= s:<hex> | b:nil | b:<hex> | e:<kind>:<hex> | ep:<kind> | i:<int>
           | p:nil | p:<value> | a:nil | a:<value> | o:<0|1>
 -/
@@ -82,5 +91,36 @@ def session (args : List String) (lines : List (List String)) : List String :=
         s!"{o.w.status} {o.body.toHex} {if next then 1 else 0} {if o.panicked then 1 else 0}"
     | _ => "bad-op"
   "new" :: lines.map one
+
+/-! ### retseq -/
+
+def splitBar (fs : List String) : List (List String) :=
+  let rec go (cur : List String) (acc : List (List String)) : List String → List (List String)
+    | [] => (cur.reverse :: acc).reverse
+    | "|" :: rest => go [] (cur.reverse :: acc) rest
+    | x :: rest => go (x :: cur) acc rest
+  go [] [] fs
+
+def parseStep : List String → Option Step
+  | ["n"] => some .silent
+  | ["mr", c, b] => some (.mapReq (customHandler (natOf c) (hexOf b)))
+  | ["ma", c, b] => some (.mapApp (customHandler (natOf c) (hexOf b)))
+  | "r" :: _ :: ph :: toks => (parseShape toks).map (.ret (hexOf ph))
+  | _ => none
+
+def seqSession (args : List String) (lines : List (List String)) : List String :=
+  let head := args.head? == some "HEAD"
+  let rec go (app : Option Handler) : List (List String) → List String
+    | [] => []
+    | l :: rest =>
+      match l with
+      | "Q" :: _ :: fs =>
+        match (splitBar fs).mapM parseStep with
+        | none => "bad-op" :: go app rest
+        | some steps =>
+          let st := runChain (newRequest head app) steps
+          s!"{st.out.w.status} {st.out.body.toHex} {st.ran} {if st.out.panicked then 1 else 0}" :: go st.app rest
+      | _ => "bad-op" :: go app rest
+  "new" :: go none lines
 
 end Flamego.Driver.Ret
